@@ -602,8 +602,102 @@ func RNegChars(c *core.Ctx) {
 			}
 			c.Check(negRecv[recv], fmt.Sprintf("%s / GetSetChars on %s #%d consults IsNegated", name, recv, i+1), call.Pos(),
 				"for a negated class the returned characters are the ones that do NOT match; using them as the matching characters publishes a wrong prefix/set")
+			// ... and a single listed character is taken for "the character every match has here"
+			// (V[k], range V) only where the set is known not to be negated: at the call or at the read
+			v := assignedLocal(info, fd.Body, call)
+			if v == nil {
+				continue
+			}
+			g := core.NewGraph(info, fd.Body)
+			notNegAt := func(n ast.Node) bool {
+				b, _ := g.BlockOf(n)
+				if b == nil {
+					return false
+				}
+				for _, f := range g.FactsAt(b) {
+					for _, cj := range conjunctsOrNegDisjuncts(f) {
+						if nc, ok := ast.Unparen(cj.e).(*ast.CallExpr); ok && !cj.val && core.IsCallTo(info, nc, isNeg) {
+							if sel, ok := nc.Fun.(*ast.SelectorExpr); ok && types.ExprString(sel.X) == recv {
+								return true
+							}
+						}
+					}
+				}
+				return false
+			}
+			if notNegAt(call) {
+				continue
+			}
+			ord := 0
+			ast.Inspect(fd.Body, func(n ast.Node) bool {
+				var at ast.Node
+				switch x := n.(type) {
+				case *ast.IndexExpr:
+					if id, ok := ast.Unparen(x.X).(*ast.Ident); ok && info.ObjectOf(id) == v {
+						at = x
+					}
+				case *ast.RangeStmt:
+					if id, ok := ast.Unparen(x.X).(*ast.Ident); ok && info.ObjectOf(id) == v && x.Value != nil {
+						at = x
+					}
+				}
+				if at == nil {
+					return true
+				}
+				ord++
+				okRead := notNegAt(at)
+				if !okRead {
+					// the statement the read stands in (an index inside a larger statement)
+					if st := enclosingStmt(fd.Body, at); st != nil {
+						okRead = notNegAt(st)
+					}
+				}
+				c.Check(okRead, fmt.Sprintf("%s / element read #%d of the characters listed by %s.GetSetChars is under a not-negated test", name, ord, recv), at.Pos(),
+					"neither the GetSetChars call nor this read is dominated by `!%s.IsNegated()`: for a negated class this takes a character the class EXCLUDES for a character every match has", recv)
+				return true
+			})
 		}
 	}
+}
+
+// assignedLocal: the local variable a call's result is assigned to (v := call / v = call), or nil.
+func assignedLocal(info *types.Info, body *ast.BlockStmt, call *ast.CallExpr) *types.Var {
+	var out *types.Var
+	ast.Inspect(body, func(n ast.Node) bool {
+		as, ok := n.(*ast.AssignStmt)
+		if !ok || len(as.Lhs) != len(as.Rhs) {
+			return true
+		}
+		for i, r := range as.Rhs {
+			if ast.Unparen(r) == ast.Expr(call) {
+				if id, ok := as.Lhs[i].(*ast.Ident); ok {
+					out, _ = info.ObjectOf(id).(*types.Var)
+				}
+			}
+		}
+		return true
+	})
+	return out
+}
+
+// enclosingStmt: the innermost statement of body that contains n.
+func enclosingStmt(body *ast.BlockStmt, n ast.Node) ast.Stmt {
+	var best ast.Stmt
+	ast.Inspect(body, func(x ast.Node) bool {
+		if x == nil {
+			return false
+		}
+		if x.Pos() > n.Pos() || x.End() < n.End() {
+			return false
+		}
+		if st, ok := x.(ast.Stmt); ok {
+			if _, isBlock := st.(*ast.BlockStmt); !isBlock {
+				best = st
+			}
+		}
+		return true
+	})
+	return best
 }
 
 // helper shared with charclass rules
